@@ -22,17 +22,32 @@ FIXED = int(os.environ.get('C07_MODEL_FIXED', '1'))
 # ----------------------------------------------------------------------------- WSGI side
 
 
+class HarnessBudget(BaseException):
+    """Raised by the scripted wsgi.input / receive() when the code under test keeps calling them
+    beyond any budget a terminating implementation could need (derives from BaseException so that
+    no `except Exception` of the code under test can swallow it)."""
+
+
+LATE_MAX = 6          # receive() calls tolerated after an http.disconnect was returned
+
+
 class FakeInput:
     """Scripted wsgi.input with io semantics; mirrors Model.src."""
 
-    def __init__(self, data, caps):
+    def __init__(self, data, caps, budget=None):
         self.data = bytes(data)
         self.p = 0
         self.caps = list(caps)
         self.reach = 0
         self.unb = 0
+        self.calls = 0
+        # a terminating stream needs at most one call per byte plus one per operation
+        self.budget = budget if budget is not None else 40 + 6 * len(self.data)
 
     def _hand(self, k, n):
+        self.calls += 1
+        if self.calls > self.budget:
+            raise HarnessBudget('wsgi.input called %d times for a %d-byte body' % (self.calls, len(self.data)))
         out = self.data[self.p:self.p + k]
         if n < 0:
             self.unb += 1
@@ -100,10 +115,49 @@ def wire_wop(op):
     return [5]
 
 
+def expand_until_eof(ops, prim, eof_of, body_len):
+    """Run [ops] through [prim] (one primitive operation -> its observation), expanding the
+    compound operation ('until_eof', n) -- `while not stream.eof: stream.read(n)` -- into the
+    primitive operations it performed.  -> (observations, primitive ops, hang reason or None)."""
+    out, prims, hang = [], [], None
+    for op in ops:
+        if op[0] != 'until_eof':
+            o, h = prim(op)
+            out.append(o)
+            prims.append(op)
+            if h:
+                hang = h
+                break
+            continue
+        it = 0
+        while hang is None:
+            o, h = prim(('eof',))
+            out.append(o)
+            prims.append(('eof',))
+            if h:
+                hang = h
+                break
+            if eof_of(o):
+                break
+            o, h = prim(('read', op[1]))
+            out.append(o)
+            prims.append(('read', op[1]))
+            if h:
+                hang = h
+                break
+            it += 1
+            if it > body_len + 4:
+                hang = 'while not stream.eof: stream.read(%d) still running after %d reads of a %d-byte body' % (
+                    op[1], it, body_len)
+        if hang:
+            break
+    return out, prims, hang
+
+
 def run_wsgi_impl(falcon, cl, data, caps, ops, via_request=False):
-    """-> list of [result, eof, pos, reach, unb] in the model's output shape."""
+    """-> (list of [result, eof, pos, reach, unb] in the model's output shape, primitive ops, hang)."""
     from falcon.stream import BoundedStream
-    fake = FakeInput(data, caps)
+    fake = FakeInput(data, caps, budget=40 + 6 * len(data) + 4 * len(ops))
     if via_request:
         from falcon import testing
         env = testing.create_environ(method='POST', path='/')
@@ -115,9 +169,10 @@ def run_wsgi_impl(falcon, cl, data, caps, ops, via_request=False):
         bs = falcon.Request(env).bounded_stream
     else:
         bs = BoundedStream(fake, cl)
-    out = []
-    for op in ops:
+
+    def prim(op):
         p0 = fake.p
+        hang = None
         try:
             k = op[0]
             if k == 'read':
@@ -136,10 +191,14 @@ def run_wsgi_impl(falcon, cl, data, caps, ops, via_request=False):
                 r = [3, list(fake.data[p0:fake.p])]
             else:
                 r = [4, 1 if bs.eof else 0]
+        except HarnessBudget as e:
+            r = [-2, 'HarnessBudget']
+            hang = str(e)
         except Exception as e:  # noqa: BLE001 - any exception is an observation
             r = [-1, type(e).__name__]
-        out.append([r, 1 if bs.eof else 0, fake.p, fake.reach, fake.unb])
-    return out
+        return [r, 1 if bs.eof else 0, fake.p, fake.reach, fake.unb], hang
+
+    return expand_until_eof(ops, prim, lambda o: o[0] == [4, 1], len(data))
 
 
 # ----------------------------------------------------------------------------- ASGI side
@@ -190,17 +249,23 @@ def wire_aop(op):
 
 
 def run_asgi_impl(falcon, first, cl, events, ops, rng, via_request=False):
-    """-> [[tell0, eof0], [[result, tell, eof, closed, awaits, late, over], ...]]"""
+    """-> ([[tell0, eof0], [[result, tell, eof, closed, awaits, late, over], ...]], primitive ops, hang)"""
     from falcon.asgi.stream import BoundedStream
     from falcon.errors import OperationNotAllowed
     script = [make_event(e, rng) for e in events]
     st = {'calls': 0, 'disc': False, 'late': 0, 'over': 0,
           'rcvd': len(first[0]) if first and first[0] is not None else 0}
+    body_len = st['rcvd'] + sum(len(e[1] or []) for e in events if e[0] == 'req')
+    max_calls = len(events) + LATE_MAX + 2
 
     async def receive():
         st['calls'] += 1
         if st['disc']:
             st['late'] += 1
+        if st['late'] > LATE_MAX or st['calls'] > max_calls:
+            # a stream that keeps awaiting receive() after the client has gone never terminates
+            raise HarnessBudget('receive() awaited %d times after http.disconnect (%d calls for %d events)'
+                                % (st['late'], st['calls'], len(events)))
         if cl is not None and st['rcvd'] >= cl:
             st['over'] += 1
         ev = script.pop(0) if script else {'type': 'http.disconnect'}
@@ -223,9 +288,10 @@ def run_asgi_impl(falcon, first, cl, events, ops, rng, via_request=False):
     else:
         s = BoundedStream(receive, first_event=fe, content_length=cl)
     head = [s.tell(), 1 if s.eof else 0]
-    gen = None
-    out = []
-    for op in ops:
+    box = {'gen': None}
+
+    def prim(op):
+        hang = None
         try:
             k = op[0]
             if k == 'read':
@@ -233,16 +299,16 @@ def run_asgi_impl(falcon, first, cl, events, ops, rng, via_request=False):
             elif k == 'readall':
                 r = [0, list(drive(s.readall()))]
             elif k == 'next':
-                if gen is None:
-                    gen = s.__aiter__()
+                if box['gen'] is None:
+                    box['gen'] = s.__aiter__()
                 try:
-                    r = [0, list(drive(gen.__anext__()))]
+                    r = [0, list(drive(box['gen'].__anext__()))]
                 except StopAsyncIteration:
                     r = [1]
             elif k == 'iternew':
-                if gen is not None:
-                    drive(gen.aclose())
-                gen = s.__aiter__()
+                if box['gen'] is not None:
+                    drive(box['gen'].aclose())
+                box['gen'] = s.__aiter__()
                 r = [3]
             elif k == 'exhaust':
                 drive(s.exhaust())
@@ -256,19 +322,24 @@ def run_asgi_impl(falcon, first, cl, events, ops, rng, via_request=False):
                 r = [4, 1 if s.eof else 0]
             else:
                 r = [4, 1 if s.closed else 0]
+        except HarnessBudget as e:
+            r = [-2, 'HarnessBudget']
+            hang = str(e)
         except OperationNotAllowed:
             r = [2, 1]
         except ValueError as e:
             r = [2, 2] if type(e) is ValueError else [-1, type(e).__name__]
         except Exception as e:  # noqa: BLE001
             r = [-1, type(e).__name__]
-        out.append([r, s.tell(), 1 if s.eof else 0, 1 if s.closed else 0, st['calls'], st['late'], st['over']])
-    if gen is not None:
+        return [r, s.tell(), 1 if s.eof else 0, 1 if s.closed else 0, st['calls'], st['late'], st['over']], hang
+
+    out, prims, hang = expand_until_eof(ops, prim, lambda o: o[0] == [4, 1], body_len)
+    if box['gen'] is not None:
         try:
-            drive(gen.aclose())
-        except Exception:  # noqa: BLE001
+            drive(box['gen'].aclose())
+        except BaseException:  # noqa: BLE001
             pass
-    return [head, out]
+    return [head, out], prims, hang
 
 
 # ----------------------------------------------------------------------------- generators
@@ -300,6 +371,10 @@ def gen_wsgi_case(rng, nops, maxdata):
     ops = []
     for _ in range(rng.randrange(1, nops + 1)):
         k = rng.choice(['read', 'read', 'readline', 'readline', 'readlines', 'next', 'exhaust', 'eof'])
+        if rng.random() < 0.07:
+            # `while not stream.eof: stream.read(n)`
+            ops.append(('until_eof', rng.choice([1, 2, 3, 5, 64])))
+            continue
         if k in ('read', 'readline', 'readlines'):
             ops.append((k, gen_size(rng, 8)))
         elif k == 'exhaust':
@@ -336,13 +411,17 @@ def gen_asgi_case(rng, nops, maxev, maxchunk):
     events = gen_events(rng, maxev, maxchunk) if (first is None or first[1]) else \
         [('disc',)] * rng.choice([0, 1, 2])
     total = (len(first[0]) if first and first[0] else 0) + sum(len(e[1] or []) for e in events if e[0] == 'req')
-    cl = rng.choice([None, None, 0, 1, 2, 3, 4, 6, 8, total, total, max(0, total - 1), total + 1, total + 2])
+    cl = rng.choice([None, None, 0, 1, 2, 3, 4, 6, 8, total, total, max(0, total - 1), total + 1, total + 2,
+                     max(0, total - 2), max(0, total // 2)])
     ops = []
     for _ in range(rng.randrange(1, nops + 1)):
         k = rng.choice(['read', 'read', 'read', 'readall', 'next', 'next', 'iternew', 'exhaust', 'close',
                         'tell', 'eof', 'closed'])
         if k in ('exhaust', 'close', 'iternew') and rng.random() < 0.5:
             k = 'read'
+        if rng.random() < 0.07:
+            ops.append(('until_eof', rng.choice([1, 2, 3, 5, 64])))
+            continue
         if k == 'read':
             ops.append((k, rng.choice([None, -1, 0, -3, 1, 1, 2, 2, 3, 4, 5, 7, 100])))
         else:
@@ -425,6 +504,7 @@ def classify_cl(value):
 
 def gen_wreq_case(rng):
     cl, data, caps, ops = gen_wsgi_case(rng, 6, 10)
+    ops = [('read', o[1]) if o[0] == 'until_eof' else o for o in ops]
     hdr = rng.choice(CL_HEADERS + [str(len(data)), str(len(data)), str(cl), str(cl)])
     qops = []
     for op in ops:
@@ -502,8 +582,12 @@ def run_wsgi_request_impl(falcon, app_box, hdr, data, caps, qops):
 
     app_box['script'] = script
     status = []
-    body = app_box['wsgi'](env, lambda s, h, e=None: status.append(s))
-    list(body)
+    box['hang'] = None
+    try:
+        body = app_box['wsgi'](env, lambda s, h, e=None: status.append(s))
+        list(body)
+    except HarnessBudget as e:
+        box['hang'] = str(e)
     box['status'] = status[0] if status else None
     box['final_pos'] = fake.p
     return box
@@ -543,6 +627,9 @@ def run_wsgi_request_cases(ctx, falcon, model, cases):
                   'ops': jd(qops), 'impl': r, 'status': box['status']}
         ctx.note_case(('wq', i), any(x[0][0] in (0, 1, 3) and x[0][1] for x in r))
         ctx.count('wsgi-request')
+        if box['hang']:
+            report_hang(ctx, 'wsgi-request', detail, qops, r, box['hang'])
+            continue
         for prob in box['problems'][:1]:
             ctx.violation('wrapper-violated', dict(detail, what=prob), key='wq-' + prob[:20])
         if box['final_pos'] != (r[-1][2] if r else 0) or box['status'] != '200 OK':
@@ -589,6 +676,7 @@ def run_wsgi_request_cases(ctx, falcon, model, cases):
 
 def gen_areq_case(rng):
     first, cl, events, ops = gen_asgi_case(rng, 6, 4, 6)
+    ops = [('read', o[1]) if o[0] == 'until_eof' else o for o in ops]
     if first is None:
         first = ([], True)
     hdr = rng.choice([None, None, '', 'abc', '-1', '0', '4', '007'] + [None if cl is None else str(cl)] * 6)
@@ -602,8 +690,15 @@ def run_asgi_request_impl(falcon, app_box, loop, first, hdr, events, ops, rng):
     cl = None
     st = {'calls': 0}
 
+    st['late'] = 0
+    max_calls = len(script_events) + LATE_MAX + 2
+
     async def receive():
         st['calls'] += 1
+        if not script_events:
+            st['late'] += 1
+        if st['late'] > LATE_MAX + 1 or st['calls'] > max_calls:
+            raise HarnessBudget('receive() awaited %d times for %d events' % (st['calls'], max_calls - LATE_MAX - 2))
         return script_events.pop(0) if script_events else {'type': 'http.disconnect'}
 
     sent = []
@@ -675,7 +770,11 @@ def run_asgi_request_impl(falcon, app_box, loop, first, hdr, events, ops, rng):
         box['calls_in_responder'] = st['calls']
 
     app_box['script'] = script
-    loop.run_until_complete(app_box['asgi'](scope, receive, send))
+    box['hang'] = None
+    try:
+        loop.run_until_complete(app_box['asgi'](scope, receive, send))
+    except HarnessBudget as e:
+        box['hang'] = str(e)
     box['calls_total'] = st['calls']
     box['status'] = next((e.get('status') for e in sent if e['type'] == 'http.response.start'), None)
     return box
@@ -698,6 +797,9 @@ def run_asgi_request_cases(ctx, falcon, model, cases):
                       'events': jd(events), 'ops': jd(ops), 'impl': r, 'status': box['status']}
             ctx.note_case(('aq', i), any(x[0][0] == 0 and x[0][1] for x in r))
             ctx.count('asgi-request')
+            if box['hang']:
+                report_hang(ctx, 'asgi-request', detail, [o for _, o in ops], r, box['hang'])
+                continue
             for prob in box['problems'][:1]:
                 ctx.violation('wrapper-violated', dict(detail, what=prob), key='aq-alias')
             if box['calls_total'] != box.get('calls_in_responder') or box['status'] != 200:
@@ -737,8 +839,8 @@ def run_asgi_request_cases(ctx, falcon, model, cases):
 
 def exhaustive_wsgi(nops):
     """All histories of <= nops operations from a small alphabet over two bodies."""
-    alphabet = [('read', None), ('read', 2), ('readline', None), ('readline', 2), ('readlines', None),
-                ('readlines', 3), ('next',), ('exhaust', 2), ('eof',)]
+    alphabet = [('read', None), ('read', 2), ('read', 0), ('readline', None), ('readline', 2), ('readline', 0),
+                ('readlines', None), ('readlines', 3), ('next',), ('exhaust', 2), ('eof',), ('until_eof', 2)]
     out = []
     for data, cls in (([97, 98, 10, 99, 100, 10], (0, 3, 6, 8)), ([97, 10, 10, 98], (2, 4))):
         for cl in cls:
@@ -751,7 +853,7 @@ def exhaustive_wsgi(nops):
 
 def exhaustive_asgi(nops):
     alphabet = [('read', None), ('read', 1), ('read', 3), ('readall',), ('next',), ('iternew',), ('exhaust',),
-                ('close',), ('eof',)]
+                ('close',), ('eof',), ('until_eof', 2)]
     scripts = [
         ((b'ab', True), [('req', list(b'cd'), True), ('req', list(b'ef'), False)]),
         ((b'', True), [('req', list(b'abcdef'), True), ('disc',)]),
@@ -798,14 +900,29 @@ def asgi_obs_wire(case, r):
             [[wire_aop(o)] + jd(x) for o, x in zip(ops, r[1])]]
 
 
+def report_hang(ctx, side, orig_desc, prims, impl, hang):
+    """A history on which the real stream did not terminate within its step budget."""
+    ctx.count(side + '-hang')
+    ctx.violation('c07-hang', dict(orig_desc, what=hang, primitive_ops_performed=jd(prims), impl=impl,
+                                   clause='the stream must terminate: a disconnect / end of input ends it'),
+                  key='%s-hang' % side)
+
+
 def run_wsgi_cases(ctx, falcon, model, cases, tag='w'):
+    # the implementation first: compound operations expand into the primitive ones they performed
+    orig = cases
+    impl, cases = [], []
+    for i, (cl, data, caps, ops) in enumerate(orig):
+        r, prims, hang = run_wsgi_impl(falcon, cl, data, caps, ops, via_request=(i % 5 == 0))
+        impl.append(r)
+        cases.append((cl, data, caps, prims))
+        if hang:
+            report_hang(ctx, 'wsgi', describe_wsgi(orig[i]), prims, r, hang)
     wires = [[0, FIXED, cl, data, caps, [wire_wop(o) for o in ops]] for cl, data, caps, ops in cases]
     outs = model.run_many(wires)
-    impl, bad = [], []
+    bad = []
     for i, (case, m) in enumerate(zip(cases, outs)):
-        cl, data, caps, ops = case
-        r = run_wsgi_impl(falcon, cl, data, caps, ops, via_request=(i % 5 == 0))
-        impl.append(r)
+        r = impl[i]
         nontriv = any(x[0][0] in (0, 1, 3) and x[0][1] for x in r)
         ctx.note_case((tag, i), nontriv)
         ctx.count('wsgi')
@@ -836,7 +953,8 @@ def run_wsgi_cases(ctx, falcon, model, cases, tag='w'):
         first = next((k for k, (a, b) in enumerate(zip(r, m)) if a != b), None)
         ctx.violation('correspondence-broken',
                       dict(describe_wsgi(case), impl=r, model=m, first_deviating_op=first,
-                           broken='C07.wsgi_corr'), found_input=bool(failing), key='wsgi-corr')
+                           broken='C07.wsgi_corr'),
+                      found_input=bool(failing) or any(v['found_input'] for v in ctx.violations), key='wsgi-corr')
     if cases and tag == 'w':
         ctx.sample(dict(describe_wsgi(cases[0]), impl=impl[0]))
     return failing
@@ -873,14 +991,20 @@ def first_failing_asgi(model, case, r):
 
 
 def run_asgi_cases(ctx, falcon, model, cases, tag='a'):
+    orig = cases
+    impl, cases = [], []
+    for i, (first, cl, events, ops) in enumerate(orig):
+        r, prims, hang = run_asgi_impl(falcon, first, cl, events, ops, ctx.rng, via_request=(i % 5 == 0))
+        impl.append(r)
+        cases.append((first, cl, events, prims))
+        if hang:
+            report_hang(ctx, 'asgi', describe_asgi(orig[i]), prims, r, hang)
     wires = [[1, FIXED, wire_first(first), wire_opt(cl), [wire_event(e) for e in events], [wire_aop(o) for o in ops]]
              for first, cl, events, ops in cases]
     outs = model.run_many(wires)
-    impl, bad = [], []
+    bad = []
     for i, (case, m) in enumerate(zip(cases, outs)):
-        first, cl, events, ops = case
-        r = run_asgi_impl(falcon, first, cl, events, ops, ctx.rng, via_request=(i % 5 == 0))
-        impl.append(r)
+        r = impl[i]
         nontriv = any(x[0][0] == 0 and x[0][1] for x in r[1])
         ctx.note_case((tag, i), nontriv)
         ctx.count('asgi')
@@ -911,7 +1035,8 @@ def run_asgi_cases(ctx, falcon, model, cases, tag='a'):
         first_dev = next((k for k, (a, b) in enumerate(zip(r[1], m[1])) if a != b), None)
         ctx.violation('correspondence-broken',
                       dict(describe_asgi(case), impl=r, model=m, first_deviating_op=first_dev,
-                           broken='C07.asgi_corr'), found_input=bool(failing), key='asgi-corr')
+                           broken='C07.asgi_corr'),
+                      found_input=bool(failing) or any(v['found_input'] for v in ctx.violations), key='asgi-corr')
     if cases and tag == 'a':
         ctx.sample(dict(describe_asgi(cases[0]), impl=impl[0]))
     return failing
